@@ -486,6 +486,86 @@ def real_sessions(chk, P):
     return out
 
 
+# ----------------------------------------------------------------------------- scripted sessions
+class _Src:
+    def __init__(self, path):
+        self.path = path
+        self.get_data = None
+
+
+def scripted_python_session(chk, P, daemon_request_literal):
+    """the REAL python side (EbuildProcessor.run_phase -> generic_handler, ebd._request_bashrcs,
+    sandbox_summary, chuck_StoppingCommand) against a SCRIPTED daemon: the lines a daemon sends for a
+    phase that sources two bashrcs, then asks for the sandbox summary (with the literal the bash
+    source really writes) and fails.  Returns (Recorder, result)."""
+    from types import SimpleNamespace
+    from pkgcore.ebuild import ebd as ebd_mod
+    script = ["ebd!", "BASHOPTS UID", "env_received", "request_bashrcs", "next", "next",
+              daemon_request_literal + "/nonexistent/sandbox.log", "phases failed ebd::process_ebuild failed"]
+    rec = Recorder(chk, P)
+    rec.arm()
+    ebp = P.EbuildProcessor.__new__(P.EbuildProcessor)
+    ebp.pid = 2 ** 22 + 35            # no such process is ever signalled: nothing calls shutdown here
+    rec.pid = ebp.pid
+    ebp._outstanding_expects = []
+    ebp._readonly_vars = frozenset()
+    ebp.processing_lock = False
+    setattr(ebp, "_EbuildProcessor__sandbox_log", "/nonexistent/sandbox.log")
+    ebp.ebd_write = io.StringIO()
+    ebp.ebd_read = io.BytesIO(("\n".join(script) + "\n").encode())
+    rec.tap(ebp)
+    # handshake as __init__ does it
+    ebp.write("ebd?")
+    ok = ebp.expect("ebd!")
+    ebp.write("no_sandbox")
+    ebp.read()
+    rec.mark("E", "1" if ok else "0")
+    fake_op = SimpleNamespace(domain=SimpleNamespace(get_package_bashrcs=lambda pkg: [_Src("/etc/rc1"), _Src("/etc/rc2")]),
+                              pkg=None)
+    rec.mark("C", "r0")
+    try:
+        v = ebp.run_phase("setup", {"A": "b"}, additional_commands={
+            "request_bashrcs": lambda e: ebd_mod.ebd._request_bashrcs(fake_op, e)})
+        res, out = ("1" if v else "0"), v
+    except BaseException as e:  # noqa: BLE001
+        res, out = "X", Err(type(e).__name__)
+    rec.mark("E", res)
+    return rec, out
+
+
+def bash_side(chk, fn_reads, fn_writes, py_writes):
+    """the REAL bash request functions of ebuild-daemon-lib.bash against a SCRIPTED python that answers
+    with the literals the python source writes; returns the problems found"""
+    lib = REPO / "data" / "lib" / "pkgcore" / "ebd" / "ebuild-daemon-lib.bash"
+    probs = []
+    ecl = chk.scratch / "x.eclass"
+    ecl.write_text("x_fn() { :; }\n")
+    runs = [
+        ("__internal_inherit", "__internal_inherit x",
+         [py_writes["inherit_handler"][0], str(ecl)], [fn_writes["__internal_inherit"][0] + "x"]),
+        ("__source_bashrcs", "__source_bashrcs",
+         [py_writes["ebd._request_bashrcs"][0], str(ecl), py_writes["ebd._request_bashrcs"][1]],
+         [fn_writes["__source_bashrcs"][0], fn_writes["__source_bashrcs"][2]]),
+        ("__request_sandbox_summary", "SANDBOX_LOG=/x/log; __request_sandbox_summary",
+         ["violation 1", py_writes["sandbox_summary"][0]], [fn_writes["__request_sandbox_summary"][0] + "/x/log"]),
+    ]
+    for name, call, answers, expect in runs:
+        out = chk.scratch / f"bash_{name}.out"
+        inp = chk.scratch / f"bash_{name}.in"
+        inp.write_text("".join(a + "\n" for a in answers) + "LEFTOVER\n")
+        code = (f'exec 8<"{inp}" 9>"{out}"; PKGCORE_EBD_READ_FD=8; PKGCORE_EBD_WRITE_FD=9; '
+                f'die() {{ echo "DIED $*" >&9; exit 3; }}; __qa_invoke() {{ "$@"; }}; declare -A PKGCORE_PRELOADED_ECLASSES; '
+                f'source "{lib}" || exit 4; {call} >/dev/null 2>&1; read -u 8 rest; echo "REST $rest" >&9; exit 0')
+        r = subprocess.run(["timeout", "120", "bash", "-c", code], capture_output=True, text=True,
+                           env={"PATH": os.environ.get("PATH", "/usr/bin:/bin")})
+        lines = out.read_text().split("\n")[:-1] if out.exists() else []
+        want = expect + ["REST LEFTOVER"]
+        if r.returncode != 0 or lines != want:
+            probs.append({"what": f"bash {name} against python's literal answers: wrote {lines!r} (exit {r.returncode}), "
+                                  f"the tables/model say {want!r}", "function": name})
+    return probs
+
+
 # ----------------------------------------------------------------------------- main
 STRUCTURAL = (b"Ryep!", b"Rpreload_eclass", b"Rphases", b"Rmetadata_path_received", b"Rrequest_inherit",
               b"Renv_", b"Rclear_preloaded", b"Rreceive_env")
@@ -544,6 +624,23 @@ def main(chk: Check):
     if not hook:
         chk.note("PKGCORE_VERIF_TRACE hook absent from " + str(REPO) + " (apply fixes/C35-hook-trace.patch)")
     t1 = time.time()
+    # the bash request functions against a scripted python run beside the daemon sessions
+    import threading
+    bash_probs, scanned = [], {}
+
+    def _bash():
+        try:
+            b = c35_tables.scan_bash()
+            _, pw, _ = c35_tables.scan_python(c35_tables.SRC / "ebuild" / "processor.py")
+            _, ew, _ = c35_tables.scan_python(c35_tables.SRC / "ebuild" / "ebd.py", "ebd.")
+            pw.update(ew)
+            scanned["b"], scanned["pw"] = b, pw
+            bash_probs.extend(bash_side(chk, b["fn_reads"], b["fn_writes"], pw))
+            scanned["done"] = True
+        except TableError:
+            pass      # already reported above
+    bash_thread = threading.Thread(target=_bash, daemon=True)
+    bash_thread.start()
     old_int, old_term = signal.getsignal(signal.SIGINT), signal.getsignal(signal.SIGTERM)
     try:
         sessions = real_sessions(chk, P)
@@ -553,6 +650,25 @@ def main(chk: Check):
     timing["sessions"] = round(time.time() - t1, 1)
 
     cases, names, oracle = [], [], []
+    # scripted daemon vs the real python side; the request literal is the one the bash source writes
+    bash_thread.join(300)
+    if "b" in scanned:
+        sbx_lit = scanned["b"]["fn_writes"]["__request_sandbox_summary"][0]
+        rec, res = scripted_python_session(chk, P, sbx_lit)
+        rec.disarm()
+        sessions.append(("scripted-daemon", type("S", (), {"rec": rec, "oracle": [], "requests": 2})()))
+        if res != Err("ProcessorError"):
+            oracle.append({"what": "the daemon's sandbox-summary request (%r) is not a command generic_handler lists: "
+                                   "a phase with sandbox violations ends with %r instead of reporting the failed phase"
+                                   % (sbx_lit.strip(), res), "session": "scripted-daemon",
+                           "last_lines": [f"{k} {t[:80]}" for k, t in rec.recs[-6:]]})
+        if not scanned.get("done"):
+            chk.violation("correspondence", {"what": "the bash request functions did not finish against the scripted python"},
+                          no_input=True)
+        for pb in bash_probs:
+            chk.violation("correspondence", {"what": pb["what"], "function": pb["function"]}, no_input=True)
+        chk.count("bash-function", 3)
+    timing["scripted+bash-join"] = round(time.time() - t1 - timing["sessions"], 1)
     for name, s in sessions:
         tr = s.rec.encode()
         cases.append((cstr(tr), True))
@@ -578,7 +694,7 @@ def main(chk: Check):
         r = chk.coq_eval("trace", IMPORTS, "str", cases + neg, ["mismatches run_trace cases"], shard=12)
         if r is not None:
             bad_idx = r[0]
-    timing["coq"] = round(time.time() - t1 - timing["sessions"], 1)
+    timing["coq"] = round(time.time() - t1 - timing["sessions"] - timing.get("scripted+bash-join", 0), 1)
 
     for o in oracle[:4]:
         chk.violation("property", {"what": o["what"], "input": o})
